@@ -230,6 +230,31 @@ pub proof fn lemma_key_head_labels(k: CoseKey, m: Seq<(Value, Value)>)
         else { assert(label_of(m[o_biv].0) == Some(x)); }
     }
 }
+pub proof fn lemma_key_enc_labels_distinct(k: CoseKey, m: Seq<(Value, Value)>)
+    requires key_params_ok(k), key_enc_ok(k, m),
+    ensures labels_distinct(m), forall |i: int| 0 <= i < m.len() ==> (#[trigger] label_of(m[i].0)) is Some,
+{
+    let o_alg = key_enc_off_alg(k); let o_ops = key_enc_off_ops(k); let o_biv = key_enc_off_biv(k); let o_p = key_enc_off_p(k);
+    let head = m.subrange(0, o_p);
+    assert(key_head_ok(k, head));
+    lemma_key_head_labels(k, head);
+    assert forall |i: int| 0 <= i < m.len() implies (#[trigger] label_of(m[i].0)) is Some by {
+        if i < o_p { assert(head[i] == m[i]); } else { assert(label_of(m[i].0) == Some(k.params@[i - o_p].0)); }
+    }
+    assert forall |i: int, j: int| 0 <= i < j < m.len() implies #[trigger] label_of(m[i].0) != #[trigger] label_of(m[j].0) by {
+        if i >= o_p {
+            assert(label_of(m[i].0) == Some(k.params@[i - o_p].0)); assert(label_of(m[j].0) == Some(k.params@[j - o_p].0));
+        } else if j >= o_p {
+            assert(label_of(m[j].0) == Some(k.params@[j - o_p].0));
+            assert(head[i] == m[i]);
+            let l = label_of(m[i].0)->0;
+            assert(key_typed_present(k, l));
+        } else {
+            // both typed: positions 0 < 1 <= o_alg <= o_ops <= o_biv carry 1,2,3,4,5
+            if i == 0 {} else if k.key_id@.len() > 0 && i == 1 {} else if k.alg is Some && i == o_alg {} else if k.key_ops@.len() != 0 && i == o_ops {} else {}
+        }
+    }
+}
 pub open spec fn b2i(b: bool) -> int { if b { 1 } else { 0 } }
 pub open spec fn key_enc_off_alg(k: CoseKey) -> int { 1 + b2i(k.key_id@.len() > 0) }
 pub open spec fn key_enc_off_ops(k: CoseKey) -> int { key_enc_off_alg(k) + b2i(k.alg is Some) }
